@@ -107,8 +107,10 @@ def check_andor(case, ctx):
         th = math.radians(theta_deg)
         c, s_ = math.cos(th), math.sin(th)
         with np.errstate(all="ignore"):
-            dx = x / c if c > 1e-12 else np.full(len(x), np.inf)
-            dy = y / s_ if s_ > 1e-12 else np.full(len(x), np.inf)
+            # along an axis-parallel ray the other coordinate is compared with 0: strictly positive values always
+            # exceed it, values equal to 0 (rounded data) never do
+            dx = x / c if c > 1e-12 else np.where(x > 0, np.inf, -np.inf)
+            dy = y / s_ if s_ > 1e-12 else np.where(y > 0, np.inf, -np.inf)
         t = np.sort(np.minimum(dx, dy) if kind == "and" else np.maximum(dx, dy))
         N_ = len(t)
         k = int(math.floor(alpha * N_ + 1e-12))
